@@ -192,7 +192,7 @@ pub fn run(rep: &mut Rep, focus: Focus, args: &[String]) {
                 for h in 0..job.n {
                     let len = hist_len(rng);
                     let mut ops = vec![TOp::Reset];
-                    ops.extend(gen_history(rng, job.depth, len, alpha, persistent, max_rm, bulk_limit));
+                    ops.extend(gen_history_ex(rng, job.depth, len, alpha, persistent, max_rm, bulk_limit, sut.name().contains("pm")));
                     let res = run_history(r, cfg, sut, &ops, rng, &format!("{tag}-h{h}"));
                     r.count(&format!("histories|{}", sut.name()));
                     r.countn("history_steps", res.steps as u64);
@@ -234,7 +234,23 @@ pub fn run(rep: &mut Rep, focus: Focus, args: &[String]) {
                             Ok(mut s) => {
                                 let bulk_limit = if s.name().contains("pm") && job.depth > 10 { 1usize << 10 } else { usize::MAX };
                                 let len = hist_len(&mut rng).min(if job.depth >= 20 { 16 } else { 45 });
-                                let ops = gen_history(&mut rng, job.depth, len, alpha, false, 255, bulk_limit);
+                                let mut ops = gen_history_ex(&mut rng, job.depth, len, alpha, false, 255, bulk_limit, s.name().contains("pm"));
+                                if job.depth >= 20 && s.name().contains("pm") {
+                                    // set_tree / init_tree_with_leaves switch the sled backend to its 150 kB-cache default
+                                    // configuration, which makes every later operation at depth 20 take ~0.3 s: keep at
+                                    // most one reset, as the last but one operation
+                                    let n = ops.len();
+                                    let mut seen = false;
+                                    for (k, op) in ops.iter_mut().enumerate() {
+                                        if matches!(op, TOp::Reset | TOp::Init(_)) {
+                                            if k + 2 == n && !seen {
+                                                seen = true;
+                                            } else {
+                                                *op = TOp::Append(gen_leaf(&mut rng));
+                                            }
+                                        }
+                                    }
+                                }
                                 let res = run_history(r, &cfgp, &mut s, &ops, &mut rng, &format!("{tag}-h{h}"));
                                 r.count(&format!("histories|{}", s.name()));
                                 r.countn("history_steps", res.steps as u64);
